@@ -1,5 +1,7 @@
 CONSTANTS
   MaxLen = 2
+  RandN = 1
+  RandLen = 1
 INIT Init
 NEXT Next
 INVARIANTS C06_NoOpenRedirect EmitCase
